@@ -86,6 +86,10 @@ func (s *Streamer) Stream(ctx context.Context, sendTransaction SendTransactionFu
 
 //Error 每次使用Stream后需要检测Error
 func (s *Streamer) Error() error {
+	if s.errChan == nil {
+		// no attempt got as far as starting the dump: nothing can ever be reported
+		return nil
+	}
 	select {
 	case err, ok := <-s.errChan:
 		if ok {
